@@ -26,6 +26,20 @@ def parse_blocks_list(s):
     return [] if s == "-" else [unhx(x) for x in s.split(",")]
 
 
+def as_iterable(blocks):
+    """`additional_tvl_blocks` is declared Iterable[bytes]: hand it over as a list, a tuple, a one-shot iterator or a
+    generator (chosen by the content, so that model and code see the same case on every run)"""
+    import zlib
+    k = zlib.crc32(b"|".join(blocks)) % 4 if blocks else 0
+    if k == 0:
+        return list(blocks)
+    if k == 1:
+        return tuple(blocks)
+    if k == 2:
+        return iter(list(blocks))
+    return (b for b in list(blocks))
+
+
 @op("tlv")
 def tlv(d):
     try:
@@ -38,7 +52,7 @@ def tlv(d):
 def setcfg(cs, d, ex):
     try:
         f = Bf3File({}, b3.parse_comps(cs))
-        f.set_config(parse_dict(d), parse_blocks_list(ex))
+        f.set_config(parse_dict(d), as_iterable(parse_blocks_list(ex)))
         return "ok " + b3.show_comps(f.components)
     except Exception as e:
         return err(e)
@@ -104,7 +118,7 @@ def hist(cm, cs, bs, ops):
         t = o.split("!")
         try:
             if t[0] == "setcfg":
-                f.bf3file.set_config(parse_dict(t[1]), parse_blocks_list(t[2]))
+                f.bf3file.set_config(parse_dict(t[1]), as_iterable(parse_blocks_list(t[2])))
             elif t[0] == "derivec":
                 f.bf3file.derive_comments_from_config(parse_dict(t[1]))
             elif t[0] == "derivea":
@@ -178,7 +192,7 @@ def prop_c10(d, ex):
     conf, extra = parse_dict(d), parse_blocks_list(ex)
     f = Bf3File()
     try:
-        f.set_config(conf, extra)
+        f.set_config(conf, as_iterable(extra))
     except OverflowError:
         # a block length is one byte: an entry whose group header + item exceeds 255 bytes (content >= 251) or an
         # extra block beyond 255 bytes cannot be represented; refusing loudly is not a violation
@@ -309,9 +323,9 @@ def prop_c11(cm, cs, bs, ops):
         try:
             if t[0] == "setcfg":
                 conf = parse_dict(t[1])
-                f.bf3file.set_config(conf, parse_blocks_list(t[2]))
+                f.bf3file.set_config(conf, as_iterable(parse_blocks_list(t[2])))
                 ref = Bf3File()
-                ref.set_config(conf, parse_blocks_list(t[2]))
+                ref.set_config(conf, as_iterable(parse_blocks_list(t[2])))
                 last_cfg = ref.components[0]
             elif t[0] == "derivec":
                 conf = parse_dict(t[1])
